@@ -45,7 +45,7 @@ def evaluate(builder, impl, sides, model, ignore_model=()):
             return (k, "correspondence", "%r: implementation %r, model %r" % (l, a, b))
     return None
 
-def run_sketch_property(pid, tier, seed, builders, rule, nontrivial=None, trusted_extra=(), key_fn=None, ignore_model=("ksum", "kacc", "layout")):
+def run_sketch_property(pid, tier, seed, builders, rule, nontrivial=None, trusted_extra=(), key_fn=None, ignore_model=("kacc", "layout")):
     rep = core.Report(pid, tier, seed)
     ok, log = core.build_vrun()
     if not ok:
